@@ -293,6 +293,11 @@ def ground_axioms(exprs):
             if f.get_id() not in seen:
                 seen.add(f.get_id())
                 ax.append(f)
+    base = list(exprs) + ax
+    for f in forall_elim_facts(base):
+        if f.get_id() not in seen:
+            seen.add(f.get_id())
+            ax.append(f)
     return ax + interned_axioms()
 
 
@@ -373,34 +378,84 @@ def abstract_recs(exprs):
 
 # --------------------------------------------------------------------------- "every element satisfies P" for cons lists
 class ForallList:
-    """AllP(l), defined by recursion from the END of the list (so appending unfolds by definition), together with the
-    instantiated consequences  AllP(l) & 0 <= k < length(l) => P(nth(l, k))  (provable by induction on l; pyvc/listlib.py)."""
+    """AllP(l, params...), defined by recursion from the END of the list (so appending unfolds by definition), together with
+    the instantiated consequences  AllP(l) & 0 <= k < length(l) => P(nth(l, k))  (provable by induction on l)."""
     _made = {}
 
-    def __init__(self, name, pred):
-        self.name, self.pred = 'All_' + name, pred
+    def __init__(self, name, pred, param_sorts=()):
+        self.name, self.pred, self.param_sorts = 'All_' + name, pred, tuple(param_sorts)
         l = z3.Const('fl_', VL)
-        self.fn = z3.RecFunction(self.name, VL, BoolS)
-        z3.RecAddDefinition(self.fn, [l], self._body(l))
+        ps = [z3.Const(f'flp{i}_', srt) for i, srt in enumerate(self.param_sorts)]
+        self.fn = z3.RecFunction(self.name, VL, *self.param_sorts, BoolS)
+        z3.RecAddDefinition(self.fn, [l] + ps, self._body(l, *ps))
         UNFOLD[self.name] = self._body
         LEMMA_HOOKS.append(self._hook)
         ForallList._made[self.name] = self
+        self.implied_by = []       # ListImplication objects concluding this predicate
 
-    def _body(self, l):
+    def _body(self, l, *ps):
         n = length(l)
-        return z3.If(n <= 0, True, z3.And(self.fn(take(l, n - 1)), self.pred(nth(l, n - 1))))
+        return z3.If(n <= 0, True, z3.And(self.fn(take(l, n - 1), *ps), self.pred(nth(l, n - 1), *ps)))
 
-    def __call__(self, l):
-        return self.fn(l)
+    def __call__(self, l, *ps):
+        return self.fn(l, *ps)
 
     def _hook(self, e, n):
-        if n == 'nth':
-            l, k = e.arg(0), e.arg(1)
-            return [z3.Implies(z3.And(self.fn(l), k >= 0, k < length(l)), self.pred(e))]
         if n == self.name:
             l = e.arg(0)
+            ps = [e.arg(i) for i in range(1, e.num_args())]
             out = [z3.Implies(VL.is_nil(l), e)]
             if z3.is_app(l) and l.decl().name() == 'app':
-                out.append(e == z3.And(self.fn(l.arg(0)), self.fn(l.arg(1))))
+                out.append(e == z3.And(self.fn(l.arg(0), *ps), self.fn(l.arg(1), *ps)))
+            if z3.is_app(l) and l.decl().kind() == z3.Z3_OP_ITE:
+                out.append(e == z3.If(l.arg(0), self.fn(l.arg(1), *ps), self.fn(l.arg(2), *ps)))
+            for imp in self.implied_by:
+                out.append(imp.instance(l, ps))
             return out
         return []
+
+    def elem(self, l, k, *ps):
+        """instance of the elimination lemma for one index"""
+        return z3.Implies(z3.And(self.fn(l, *ps), k >= 0, k < length(l)), self.pred(nth(l, k), *ps))
+
+
+def _forall_nth_hook(e, n):
+    """AllP(l, ps) & 0 <= k < length(l) => P(nth(l,k), ps): instantiated for the AllP(l, ps) facts that mention the same list"""
+    return []
+
+
+class ListImplication:
+    """All_P1(l, ps1) & ... & All_Pn(l, psn) => All_Q(l, psq), justified pointwise: the obligation
+    forall x. P1(x, ps1) & ... & Pn(x, psn) => Q(x, psq) is discharged as a lemma of the run (induction on l is the meta-argument)."""
+    registry = []
+
+    def __init__(self, name, premises, conclusion, param_map):
+        # premises: [(ForallList, fn mapping conclusion params -> premise params)]
+        self.name, self.premises, self.conclusion, self.param_map = name, premises, conclusion, param_map
+        conclusion.implied_by.append(self)
+        ListImplication.registry.append(self)
+
+    def instance(self, l, ps):
+        prem = [fl.fn(l, *pm(*ps)) for fl, pm in self.premises]
+        return z3.Implies(z3.And(*prem), self.conclusion.fn(l, *ps))
+
+    def pointwise(self):
+        x = z3.Const('pw_x', V)
+        ps = [z3.Const(f'pw_p{i}', srt) for i, srt in enumerate(self.conclusion.param_sorts)]
+        hyps = [fl.pred(x, *pm(*ps)) for fl, pm in self.premises]
+        return hyps, self.conclusion.pred(x, *ps)
+
+
+# elimination instances for nth terms: generated per query for the All_* facts present
+def forall_elim_facts(exprs):
+    alls = collect_apps(exprs, set(ForallList._made))
+    nths = collect_apps(exprs, ('nth',))
+    out = []
+    for a in alls:
+        fl = ForallList._made[a.decl().name()]
+        l = a.arg(0)
+        ps = [a.arg(i) for i in range(1, a.num_args())]
+        for t in nths:
+            # the index of every nth term is tried on the list of the All_ fact (the solver relates the lists)
+            out.append(fl.elem(l, t.arg(1), *ps))
+    return out
